@@ -14,15 +14,17 @@ Definition resolve_name (p : prog) (n : name) : res ty :=
   | Some d => Ok (match d_kind d with DEnum => Enum n | _ => Cls n end)
   | None => Raise TypeResolutionError   (* a name no loaded module declares: manually_search_for_class_name gives up *)
   end.
-Fixpoint resolve (p : prog) (t : ty) : res ty :=
+(* ns: the diagram's classes, the fallback namespace of resolved_type (keyed by __name__) *)
+Fixpoint resolve (p : prog) (ns : list name) (t : ty) : res ty :=
   match t with
   | Fwd n => resolve_name p n
-  | Optional a => bind (resolve p a) (fun a' => Ok (Optional a'))
-  | OptionalL a => bind (resolve p a) (fun a' => Ok (OptionalL a'))
-  | Pep604 a => bind (resolve p a) (fun a' => Ok (Pep604 a'))
-  | Cont k a => bind (resolve p a) (fun a' => Ok (Cont k a'))
-  | TypeOf a => bind (resolve p a) (fun a' => Ok (TypeOf a'))
-  | DictOf k v => bind (resolve p k) (fun k' => bind (resolve p v) (fun v' => Ok (DictOf k' v')))
+  | FwdLocal n => if mem n ns then resolve_name p n else Raise TypeResolutionError
+  | Optional a => bind (resolve p ns a) (fun a' => Ok (Optional a'))
+  | OptionalL a => bind (resolve p ns a) (fun a' => Ok (OptionalL a'))
+  | Pep604 a => bind (resolve p ns a) (fun a' => Ok (Pep604 a'))
+  | Cont k a => bind (resolve p ns a) (fun a' => Ok (Cont k a'))
+  | TypeOf a => bind (resolve p ns a) (fun a' => Ok (TypeOf a'))
+  | DictOf k v => bind (resolve p ns k) (fun k' => bind (resolve p ns v) (fun v' => Ok (DictOf k' v')))
   | _ => Ok t
   end.
 
@@ -57,7 +59,7 @@ Definition inh_edges (p : prog) (ns : list name) : list edge :=
   flat_map (fun c => flat_map (fun b => if mem b ns then [mk_edge EInh b c xH] else []) (bases_of p c)) ns.
 
 Definition field_edge (p : prog) (ns : list name) (c : name) (f : fdecl) : res (list edge) :=
-  bind (resolve p (f_ann f)) (fun rt =>
+  bind (resolve p ns (f_ann f)) (fun rt =>
   bind (type_endpoint {| resolved_type := rt; has_default := f_default f; has_default_factory := f_factory f |}) (fun ep =>
   Ok (match ep with
       | Cls d | Enum d => if mem d ns then [mk_edge EAssoc c d (f_name f)] else []
@@ -102,8 +104,17 @@ Definition old_retry (p : prog) (ns : list name) (c : name) : res unit :=
   | e :: _ => if forallb (fun n => mem n ns || Pos.eqb n e) (unresolved p c) then Ok tt else Raise NameError
   end.
 
+(* resolved_type is first read for the first public field; get_type_hints then evaluates EVERY annotation of the
+   class (private and inherited fields included), so one unresolvable name fails the class *)
+Fixpoint mcheck {A B} (f : A -> res B) (l : list A) : res unit :=
+  match l with [] => Ok tt | x :: l' => bind (f x) (fun _ => mcheck f l') end.
+Definition class_edges (p : prog) (T : table) (ns : list name) (c : name) : res (list edge) :=
+  match public_fields T c with
+  | [] => Ok []
+  | fs => bind (mcheck (fun f => resolve p ns (f_ann f)) (lookup_tab T c)) (fun _ => mconcat (field_edge p ns c) fs)
+  end.
 Definition assoc_edges (p : prog) (ns : list name) : res (list edge) :=
-  let T := tab p in mconcat (fun c => mconcat (field_edge p ns c) (public_fields T c)) ns.
+  let T := tab p in mconcat (class_edges p T ns) ns.
 
 Definition build (p : prog) (cs : list name) : res graph :=
   let ns := nodes_of cs in
@@ -124,7 +135,7 @@ Definition preds_sx (f : wfield) : sx :=
       rsx SB (is_collection_of_builtins f); rsx SB (is_role_taker f);
       rsx (fun o => SZ (origin_code o)) (container_type f); rsx ty_sx (contained_type f)].
 Definition classify_sx (p : prog) (t : ty) (d df : bool) : sx :=
-  match resolve p t with
+  match resolve p [] t with
   | Ok rt => preds_sx {| resolved_type := rt; has_default := d; has_default_factory := df |}
   | Raise e => SL [SZ (-1)%Z; exn_sx e]
   end.
